@@ -18,13 +18,14 @@ const (
 	kRelen         // a primitive element re-encoded at another content length (position = (element, length) pair)
 	kOID           // OBJECT IDENTIFIER elements: every value of the last two bytes, replacement by other known OIDs
 	kText          // text-grammar edits of every string value (text.go), enclosing lengths recomputed
+	kAlg           // every AlgorithmIdentifier replaced by each identifier the library knows: alone, with its twins, sibling pairs (algid.go)
 	kTiny          // empty and 1-3 byte inputs (position = index into the fixed list)
 	kCross         // every other artefact of the world, unmodified (type confusion)
 	kSplice        // seeded random splices
 	nKinds
 )
 
-var kindNames = [nKinds]string{"truncate", "xor01", "xor80", "set00", "setff", "der-edit", "der-relength", "der-oid", "text-grammar", "tiny", "cross-type", "random-splice"}
+var kindNames = [nKinds]string{"truncate", "xor01", "xor80", "set00", "setff", "der-edit", "der-relength", "der-oid", "text-grammar", "der-algid", "tiny", "cross-type", "random-splice"}
 
 // tinyInputs is the fixed list of empty and 1-3 byte inputs.
 var tinyInputs = func() [][]byte {
@@ -72,6 +73,17 @@ func positions(kind int, a *artefact, w *world) int {
 		return len(a.oidp)
 	case kText:
 		return a.textPositions()
+	case kAlg:
+		if a.tree == nil {
+			return 0
+		}
+		if a.algp == nil {
+			a.algp = a.tree.algPositions()
+			if a.algp == nil {
+				a.algp = []algPos{}
+			}
+		}
+		return len(a.algp)
 	case kTiny:
 		return len(tinyInputs) + 1 // + nil
 	case kCross:
@@ -149,6 +161,20 @@ func mutantsAt(kind int, a *artefact, w *world, i int, out []mutant) []mutant {
 			return append(out, mutant{b: m, what: what})
 		}
 		return out
+	case kAlg:
+		p := a.algp[i]
+		m := a.tree.algMutant(p)
+		if m == nil {
+			return out
+		}
+		if a.wrap != nil {
+			m = a.wrap(m)
+		}
+		what := "der-algid/" + algModes[p.mode] + "/" + algAll[p.a].name
+		if p.mode == 2 {
+			what += "+" + algAll[p.b].name
+		}
+		return append(out, mutant{b: m, what: what})
 	case kTiny:
 		if i == len(tinyInputs) {
 			return append(out, mutant{isNil: true, what: "tiny"})
